@@ -77,14 +77,34 @@ func (p op) String() string {
 }
 
 type sched struct {
-	NMain   int  `json:"n_main"`
-	NFb     int  `json:"n_fb"`
-	Backoff int  `json:"backoff_ticks"`
-	Ops     []op `json:"ops"`
+	NMain   int `json:"n_main"`
+	NFb     int `json:"n_fb"`
+	Backoff int `json:"backoff_ticks"`
+	// MainNet and FbNet are the configured networks (any | udp | tcp) of the
+	// plain upstreams of the socket world; empty means all "any".
+	MainNet []string `json:"main_net,omitempty"`
+	FbNet   []string `json:"fb_net,omitempty"`
+	Ops     []op     `json:"ops"`
+}
+
+// netOf returns the configured network of an upstream of the schedule.
+func (s *sched) netOf(fb bool, idx int) string {
+	l := s.MainNet
+	if fb {
+		l = s.FbNet
+	}
+	if idx < len(l) {
+		return l[idx]
+	}
+
+	return "any"
 }
 
 func (s *sched) canon() string {
 	parts := []string{fmt.Sprintf("%d/%d/%d", s.NMain, s.NFb, s.Backoff)}
+	if len(s.MainNet)+len(s.FbNet) > 0 {
+		parts[0] += "/" + strings.Join(s.MainNet, ",") + "|" + strings.Join(s.FbNet, ",")
+	}
 	for _, p := range s.Ops {
 		parts = append(parts, p.String())
 	}
@@ -106,12 +126,13 @@ type world interface {
 	// takeLog returns the upstreams contacted since the last call, one entry
 	// per upstream and kind of request, in order of first contact.
 	takeLog() []call
-	// modelTok is the model's outcome token of a behaviour.
-	modelTok(beh string, tok int) string
-	// classify is the oracle's own reading of a query behaviour: reply, net,
-	// other, nil or "?" (composite: not judged by clauses a and b).
-	classify(beh string) string
-	probeOK(beh string) bool
+	// modelTok is the model's outcome token of a behaviour of an upstream.
+	modelTok(fb bool, idx int, beh string, tok int) string
+	// classify is the oracle's own reading of a query behaviour of an upstream:
+	// reply, net, other, nil or "?" (composite: not judged by clauses a and b).
+	classify(fb bool, idx int, beh string) string
+	// probeOK: a health probe of main upstream idx behaving like beh succeeds.
+	probeOK(idx int, beh string) bool
 	close()
 }
 
@@ -249,7 +270,7 @@ func runSchedule(w world, s *sched) (lines, obs []string, viols []finding, nontr
 			mainKind := "none"
 			if len(mainCalls) > 0 {
 				u := mainCalls[0]
-				mainKind = w.classify(p.Main[u])
+				mainKind = w.classify(false, u, p.Main[u])
 				if s.NFb > 0 && last[u] == probedFailed {
 					violate("main-used-after-failed-probe",
 						"step %d (t=%d): query sent to main upstream %d whose last probe failed at t=%d", step, now, u, failedAt[u])
@@ -262,7 +283,7 @@ func runSchedule(w world, s *sched) (lines, obs []string, viols []finding, nontr
 			}
 			fbKind := "none"
 			if len(fbCalls) > 0 {
-				fbKind = w.classify(p.Fb[fbCalls[0]])
+				fbKind = w.classify(true, fbCalls[0], p.Fb[fbCalls[0]])
 			}
 			switch mainKind {
 			case "reply":
@@ -319,8 +340,8 @@ func runSchedule(w world, s *sched) (lines, obs []string, viols []finding, nontr
 				}
 			}
 			bits := ""
-			for _, b := range p.Main {
-				if w.probeOK(b) {
+			for u, b := range p.Main {
+				if w.probeOK(u, b) {
 					bits += "1"
 				} else {
 					bits += "0"
@@ -344,13 +365,13 @@ func runSchedule(w world, s *sched) (lines, obs []string, viols []finding, nontr
 			// --- property oracle ---
 			for _, u := range probed {
 				if last[u] == probedFailed && now-failedAt[u] < s.Backoff {
-					if w.probeOK(p.Main[u]) {
+					if w.probeOK(u, p.Main[u]) {
 						early[u] = true
 					}
 				} else {
 					early[u] = false
 				}
-				if w.probeOK(p.Main[u]) {
+				if w.probeOK(u, p.Main[u]) {
 					last[u] = probedOK
 				} else {
 					last[u] = probedFailed
@@ -382,7 +403,7 @@ func tokList(w world, behs []string, fb bool, step int) string {
 	}
 	toks := make([]string, len(behs))
 	for i, b := range behs {
-		toks[i] = w.modelTok(b, tokOf(fb, i, step))
+		toks[i] = w.modelTok(fb, i, b, tokOf(fb, i, step))
 	}
 
 	return strings.Join(toks, ",")
@@ -533,7 +554,7 @@ func (w *fakeWorld) takeLog() (l []call) {
 	return l
 }
 
-func (w *fakeWorld) modelTok(beh string, tok int) string {
+func (w *fakeWorld) modelTok(_ bool, _ int, beh string, tok int) string {
 	switch beh[0] {
 	case 'r':
 		return fmt.Sprintf("r%d", tok)
@@ -546,7 +567,7 @@ func (w *fakeWorld) modelTok(beh string, tok int) string {
 	}
 }
 
-func (w *fakeWorld) classify(beh string) string {
+func (w *fakeWorld) classify(_ bool, _ int, beh string) string {
 	switch beh[0] {
 	case 'r':
 		return "reply"
@@ -559,7 +580,7 @@ func (w *fakeWorld) classify(beh string) string {
 	}
 }
 
-func (w *fakeWorld) probeOK(beh string) bool { return beh == "ok" }
+func (w *fakeWorld) probeOK(_ int, beh string) bool { return beh == "ok" }
 
 func dummyConfs(n int) (confs []*forward.UpstreamPlainConfig) {
 	for i := 0; i < n; i++ {
@@ -709,26 +730,44 @@ func evalSchedule(r *hlib.Result, m *hlib.Model, campaign string, s *sched, mk f
 	for _, v := range viols {
 		rs := s
 		what := v.what
-		if confirm == 0 {
-			// Shrink on the in-memory world (deterministic up to the handler's own random picks).
+		{
+			// Shrink.  The in-memory world is deterministic up to the handler's own
+			// random picks: a candidate fails if one of four runs shows the
+			// signature.  With sockets a candidate must show it twice in a row
+			// (scheduling jitter), within four attempts.
+			need := 1
+			if confirm > 0 {
+				need = 2
+			}
 			ops := hlib.Shrink(s.Ops, func(cand []op) bool {
-				for try := 0; try < 4; try++ {
-					c := &sched{NMain: s.NMain, NFb: s.NFb, Backoff: s.Backoff, Ops: cand}
+				seen := 0
+				for try := 0; try < 4 && seen < need; try++ {
+					c := &sched{NMain: s.NMain, NFb: s.NFb, Backoff: s.Backoff, MainNet: s.MainNet, FbNet: s.FbNet, Ops: cand}
 					w3 := mk(c)
 					_, _, v3, _ := runSchedule(w3, c)
 					w3.close()
+					hit := ""
 					for _, x := range v3 {
 						if x.sig == v.sig {
-							what = x.what
+							hit = x.what
 
-							return true
+							break
 						}
+					}
+					if hit == "" {
+						seen = 0
+
+						continue
+					}
+					seen++
+					if seen == need {
+						what = hit
 					}
 				}
 
-				return false
+				return seen >= need
 			})
-			rs = &sched{NMain: s.NMain, NFb: s.NFb, Backoff: s.Backoff, Ops: ops}
+			rs = &sched{NMain: s.NMain, NFb: s.NFb, Backoff: s.Backoff, MainNet: s.MainNet, FbNet: s.FbNet, Ops: ops}
 		}
 		r.Violate(v.sig, what+" [schedule "+rs.canon()+"]", map[string]any{"campaign": campaign, "schedule": rs, "canon": rs.canon(), "original": s.canon()})
 		bad = true
@@ -918,6 +957,30 @@ func validateCampaign(o *hlib.Opts, r *hlib.Result, m *hlib.Model) {
 			}
 			resp.Question = append(resp.Question, q)
 		}
+		// Header flags and sections that say nothing about whose reply this is:
+		// the verdict must not depend on them (the model has no field for them).
+		flags := ""
+		if rng.IntN(3) == 0 {
+			resp.Truncated = true
+			flags += "+tc"
+		}
+		if rng.IntN(4) == 0 {
+			resp.Rcode = []int{dns.RcodeServerFailure, dns.RcodeNameError, dns.RcodeRefused}[rng.IntN(3)]
+			flags += "+rcode"
+		}
+		if rng.IntN(6) == 0 {
+			resp.Response = rng.IntN(2) == 0
+			resp.Authoritative = rng.IntN(2) == 0
+			resp.Opcode = []int{dns.OpcodeQuery, dns.OpcodeNotify}[rng.IntN(2)]
+			flags += "+hdr"
+		}
+		if rng.IntN(3) > 0 {
+			resp.Answer = append(resp.Answer, &dns.A{
+				Hdr: dns.RR_Header{Name: req.Question[0].Name, Rrtype: dns.TypeA, Class: dns.ClassINET, Ttl: 10},
+				A:   net.IPv4(10, 0, 0, 1),
+			})
+			flags += "+ans"
+		}
 		err := forward.VerifC17ValidatePlainResponse(req, resp)
 		got := "ok"
 		switch {
@@ -946,15 +1009,18 @@ func validateCampaign(o *hlib.Opts, r *hlib.Result, m *hlib.Model) {
 			asciiLower(resp.Question[0].Name) == asciiLower(req.Question[0].Name)
 		if err == nil && !match {
 			sig := "reply-accepted-with-mismatch"
-			r.Violate(sig, fmt.Sprintf("validatePlainResponse accepted a response that does not match: %s", line),
-				map[string]any{"campaign": "validate", "line": line})
+			r.Violate(sig, fmt.Sprintf("validatePlainResponse accepted a response that does not match: %s (response flags %q)", line, flags),
+				map[string]any{"campaign": "validate", "line": line, "flags": flags})
 		}
 		if err != nil && match {
 			r.Violate("matching-reply-rejected", fmt.Sprintf("validatePlainResponse rejected a matching response (%v): %s", err, line),
 				map[string]any{"campaign": "validate", "line": line})
 		}
-		r.Case(line, got != "ok")
+		r.Case(line+flags, got != "ok")
 		r.Count("validate." + got)
+		if strings.Contains(flags, "+tc") && got != "ok" {
+			r.Count("validate.rejected_with_tc")
+		}
 	}
 	m.ResetLog()
 	answers := m.Batch(lines)
